@@ -10,13 +10,13 @@ def rule(name, fn, floor, template, **kw):
 
 FORMULA_ROWS = {
     # row-name prefix -> properties that own it
-    "push": ["C01"], "insert": ["C01"], "clear": ["C01", "C03"], "ctor-fields:Pop": ["C01", "C07"], "ctor-fields:Remove": ["C01", "C07"],
+    "push": ["C01", "C11"], "insert": ["C01", "C11"], "clear": ["C01", "C03"], "ctor-fields:Pop": ["C01", "C07"], "ctor-fields:Remove": ["C01", "C07"],
     "ctor-fields:SwapRemove": ["C01", "C07"], "ctor-fields:Drain": ["C02", "C07"], "ctor-fields:Splice": ["C02", "C07"],
     "Pop::": ["C01", "C13"], "Remove::": ["C01", "C13"], "SwapRemove::": ["C01", "C13"],
     "Drain::drop": ["C02", "C03"], "Splice::drop": ["C02", "C03", "C11", "C05"],
     "slot-pointer": ["C01", "C13", "C05"], "view:": ["C12", "C05"], "set_len": ["C12"], "iter-range": ["C01", "C14"],
     "reserve": ["C10"], "reserve_exact": ["C10"], "shrink_to_fit": ["C10", "C05"], "shrink_to": ["C10", "C05"],
-    "clone": ["C08", "C05"], "TempValue::": ["C01", "C03", "C06"], "swap_unchecked": ["C13"], "vec-drop": ["C03", "C05"], "element-handle": ["C13", "C01"], "clone_into": ["C09", "C08"], "lazy-noop": ["C09"], "bytes-ptr-agree": ["C13"], "into_range": ["C02"], "heap-expand": ["C10"], "expand_exact": ["C10"], "build_with_size": ["C10"],
+    "clone": ["C08", "C05"], "TempValue::": ["C01", "C03", "C06"], "swap_unchecked": ["C13"], "vec-drop": ["C03", "C05"], "element-handle": ["C13", "C01"], "clone_into": ["C09", "C08", "C01"], "lazy-noop": ["C09"], "bytes-ptr-agree": ["C13"], "into_range": ["C02", "C14"], "heap-expand": ["C10", "C05"], "expand_exact": ["C10"], "build_with_size": ["C10"],
 }
 
 
@@ -107,7 +107,7 @@ def _fn_filter(mapping, default=None):
     return flt
 
 
-RULES["R-ORDER"]["props_filter"] = _fn_filter([("P1-", ["C05"]), ("P2-", ["C06", "C03"]), ("P3-", ["C03", "C06"]), ("P4-", ["C03", "C06"]), ("P5-", ["C08", "C06"])])
+RULES["R-ORDER"]["props_filter"] = _fn_filter([("P1-", ["C05"]), ("splice::Splice", ["C06", "C03", "C04"]), ("P2-", ["C06", "C03"]), ("P3-", ["C03", "C06"]), ("P4-", ["C03", "C06"]), ("P5-", ["C08", "C06"])])
 RULES["R-ARITH"]["props_filter"] = _fn_filter([("into_range", ["C02"]), ("splice", ["C02", "C11"]), ("stack_n", ["C11"]), ("HeapMem", ["C10", "C18"]),
                                                 ("mem::MemResizable", ["C10", "C18"]), ("reserve", ["C10"])], default=["C10", "C18"])
 RULES["R-BOUNDS"]["props_filter"] = _fn_filter([("ctor:Drain", ["C02", "C05"]), ("ctor:Splice", ["C02", "C05"]), ("unchecked-access", ["C13", "C01", "C05"]),
@@ -116,7 +116,8 @@ RULES["R-UNITS"]["props_filter"] = _fn_filter([("spare_bytes_mut", ["C12", "C05"
                                                 ("drain", ["C02", "C05"]), ("heap", ["C18"]), ("stride-type", ["C03", "C05"])], default=["C01", "C05"])
 RULES["R-EXPANDGUARD"]["props_filter"] = _fn_filter([("clone", ["C08", "C11"])], default=["C11"])
 RULES["R-TYPEGUARD"]["props_filter"] = _fn_filter([("swap", ["C04", "C13"])], default=["C04"])
-RULES["R-LENLOWER"]["props_filter"] = _fn_filter([("drain", ["C02", "C07", "C06"]), ("splice", ["C02", "C07", "C06"])], default=["C07", "C06", "C01"])
+RULES["R-LENLOWER"]["props_filter"] = _fn_filter([("extra-effect", ["C02", "C07", "C06", "C11"]), ("drain", ["C02", "C07", "C06"]), ("splice", ["C02", "C07", "C06"])], default=["C07", "C06", "C01", "C03"])
+RULES["R-HEAP"]["props_filter"] = _fn_filter([("size-update", ["C18", "C10"]), ("layout", ["C18", "C12"]), ("build-allocates", ["C18", "C10"])], default=["C18"])
 RULES["R-FORGET"]["props_filter"] = _fn_filter([("LazyClone", ["C09", "C03"]), ("lazy", ["C09", "C03"])], default=["C03", "C09"])
 RULES["R-PROVENANCE"]["props_filter"] = _fn_filter([("reporter", ["C04", "C13"]), ("clone", ["C08", "C03"]), ("CLONE_FN", ["C08"]), ("destr", ["C03"])], default=["C04", "C08", "C03"])
 
@@ -125,9 +126,9 @@ PROPERTIES = {
             "not_decided": "value-level equality of elements (the analysis tracks slots and byte ranges, not contents); user backends violating the Mem contract"},
     "C02": {"rules": ["R-BOUNDS", "R-LENLOWER", "R-ITER", "R-FORMULA", "R-NONINTERFERENCE", "R-UNITS", "R-ARITH", "R-BOUNDLOOP"],
             "not_decided": "equality of yielded values"},
-    "C03": {"rules": ["R-FORGET", "R-PROVENANCE", "R-ORDER", "R-NONINTERFERENCE", "R-FORMULA"],
+    "C03": {"rules": ["R-FORGET", "R-PROVENANCE", "R-ORDER", "R-NONINTERFERENCE", "R-FORMULA", "R-LENLOWER"],
             "not_decided": "a global count of live values over histories (ownership discipline is decided, not identity accounting)"},
-    "C04": {"rules": ["R-TYPEGUARD", "R-PROVENANCE"], "not_decided": "which downcast succeeds at run time; decided: every unchecked reinterpretation sits behind the right equality test"},
+    "C04": {"rules": ["R-TYPEGUARD", "R-PROVENANCE", "R-ORDER"], "not_decided": "which downcast succeeds at run time; decided: every unchecked reinterpretation sits behind the right equality test"},
     "C05": {"rules": ["R-ORDER", "R-BOUNDS", "R-UNITS", "R-FORMULA", "R-BOUNDLOOP"],
             "not_decided": "'no byte is read before it was written' in general, guard zones / poison (run-time notions)"},
     "C06": {"rules": ["R-ORDER", "R-BOUNDLOOP", "R-LENLOWER"], "not_decided": "that later operations stay fully usable beyond LEN<=CAP and visible-range integrity"},
@@ -135,10 +136,10 @@ PROPERTIES = {
     "C08": {"rules": ["R-FORMULA", "R-ORDER", "R-EXPANDGUARD", "R-PROVENANCE"],
             "not_decided": "each source element cloned exactly once beyond the clone function's loop shape; independence beyond separate storage"},
     "C09": {"rules": ["R-FORGET", "R-FORMULA"], "not_decided": ""},
-    "C10": {"rules": ["R-ARITH", "R-FORMULA"], "not_decided": "the count of reallocations over 2^16 pushes (only its structural cause, the doubling term, is checked)"},
-    "C11": {"rules": ["R-EXPANDGUARD", "R-FORMULA", "R-ARITH", "R-ALLOCCONFINED", "R-STACKCAP"],
+    "C10": {"rules": ["R-ARITH", "R-FORMULA", "R-HEAP"], "not_decided": "the count of reallocations over 2^16 pushes (only its structural cause, the doubling term, is checked)"},
+    "C11": {"rules": ["R-EXPANDGUARD", "R-FORMULA", "R-ARITH", "R-ALLOCCONFINED", "R-STACKCAP", "R-LENLOWER"],
             "not_decided": "behavioural equality with the heap backend beyond 'same generic code, backend reached only through Mem'"},
-    "C12": {"rules": ["R-FORMULA", "R-UNITS", "R-ALIGN"], "not_decided": ""},
+    "C12": {"rules": ["R-FORMULA", "R-UNITS", "R-ALIGN", "R-HEAP"], "not_decided": ""},
     "C13": {"rules": ["R-BOUNDS", "R-FORMULA", "R-TYPEGUARD", "R-PROVENANCE"], "not_decided": "value equality after mutation"},
     "C14": {"rules": ["R-ITER", "R-FORMULA"], "not_decided": "typed iterators are core::slice iterators over the R-FORMULA slice (std adapters trusted)"},
     "C15": {"rules": [], "probes": ["P15"], "exhaustive": True, "not_decided": ""},
